@@ -26,6 +26,8 @@ def group_runs(g, tier):
             W('mem', 'random', names='prefix', walks=20 if q else 500, length=40),
             W('mem', 'random', names='rnd', walks=10 if q else 300, length=40), W('mem', 'random', names='rnd', lts='deep', walks=8 if q else 300, length=40),
             W('phys', 'random', names='rnd', walks=6 if q else 200, length=40),
+            W('mem', 'edges', lts='chain', frac=0.25 if q else 1.0), W('phys', 'edges', lts='chain', frac=0.1 if q else 1.0, names='dotted'),
+            W('mem', 'edges', lts='wide', frac=0.03 if q else 1.0, names='prefix2'), W('phys', 'random', lts='wide', walks=6 if q else 300, length=40, names='multi'),
             W('mem', 'random', names='prefix2', walks=12 if q else 400, length=40), W('mem', 'random', lts='deep', names='prefix2', walks=8 if q else 300, length=40),
             W('mem', 'random', names='dotted', walks=20 if q else 500, length=40),
             W('mem', 'random', names='multi', b=3, walks=20 if q else 500, length=40),
@@ -52,6 +54,8 @@ def group_runs(g, tier):
             W('alt(zr/zs,phys)', 'random', names='dotted', walks=8 if q else 300, length=40),
             W('alt(/,mem)', 'random', walks=10 if q else 300, length=40),
             W('alt(zr/zs/zt,mem)', 'random', names='prefix', walks=10 if q else 300, length=40),
+            W('alt(zr/zs,mem)', 'edges', lts='chain', frac=0.15 if q else 1.0), W('alt(zr,phys)', 'random', lts='chain', walks=5 if q else 200, length=40),
+            W('alt(zr,mem)', 'random', lts='wide', walks=6 if q else 300, length=40),
             W('alt(zr,mem)', 'random', names='prefix2', walks=8 if q else 300, length=40), W('alt(zr/zs,mem)', 'random', names='rnd', walks=8 if q else 300, length=40),
             W('alt(zr,phys)', 'random', names='rnd', walks=5 if q else 200, length=40),
             W('alt(zr,alt(zs,mem))', 'random', names='multi', walks=10 if q else 300, length=40),
@@ -68,6 +72,9 @@ def group_runs(g, tier):
             W('ovl(phys,phys)', 'random', walks=8 if q else 500, length=40, split=True),
             W('ovl(mem,phys)', 'random', names='dotted', walks=6 if q else 300, length=40, split=True),
             W('ovl(alt(zu,mem),mem)', 'random', names='prefix', walks=8 if q else 300, length=40, split=True),
+            W('ovl(mem,mem)', 'edges', lts='chain', frac=0.3 if q else 1.0, split=True), W('ovl(mem,mem,mem)', 'random', lts='chain', walks=10 if q else 400, length=40, split=True),
+            W('ovl(mem,mem)', 'edges', lts='wide', frac=0.02 if q else 1.0, split=True), W('ovl(mem,phys)', 'random', lts='wide', walks=5 if q else 200, length=40, split=True),
+            W('ovl(mem,mem)', 'random', lts='chain', walks=10 if q else 400, length=40, split=True, lower_only=True),
             W('ovl(mem,mem)', 'random', names='prefix2', walks=8 if q else 300, length=40, split=True),
             W('ovl(mem,mem)', 'random', names='rnd', walks=8 if q else 300, length=40, split=True), W('ovl(phys,mem)', 'random', names='rnd', walks=5 if q else 200, length=40, split=True),
             W('ovl(ovl(mem,mem),mem)', 'random', names='multi', walks=8 if q else 300, length=40, split=True),
@@ -123,7 +130,8 @@ def group_runs(g, tier):
         def H(cfg, names='ascii', b=1, walks=40, depth=1, nz=False):
             return dict(kind='handles', cfg=cfg, names=names, b=b, walks=walks, len=60, lower=False, depth=depth, extreme=True, inst='MC_Handles_q', tspec='Trace_Handles', no_zero_read=nz)
         return [
-            W('async:mem', 'edges', frac=0.04 if q else 1.0), W('async:mem', 'random', names='prefix', walks=15 * k, length=40), W('async:mem', 'random', names='prefix2', walks=10 * k, length=40), W('async:mem', 'random', names='rnd', walks=8 * k, length=40),
+            W('async:mem', 'edges', frac=0.04 if q else 1.0), W('async:mem', 'random', names='prefix', walks=15 * k, length=40), W('async:mem', 'random', names='prefix2', walks=10 * k, length=40), W('async:mem', 'edges', lts='chain', frac=0.2 if q else 1.0),
+            W('async:ovl(mem,mem)', 'random', lts='chain', walks=6 * k, length=40), W('async:mem', 'random', lts='wide', walks=6 * k, length=40), W('async:mem', 'random', names='rnd', walks=8 * k, length=40),
             W('async:phys', 'edges', frac=0.015 if q else 0.5), W('async:phys', 'random', names='multi', b=8193, walks=6 * k, length=30),
             W('async:alt(zr,mem)', 'random', names='dotted', walks=12 * k, length=40), W('async:alt(zr/zs,phys)', 'random', walks=6 * k, length=30),
             W('async:ovl(mem,mem)', 'edges', frac=0.02 if q else 0.5), W('async:ovl(mem,mem)', 'random', walks=15 * k, length=40, lts='deep'),
@@ -170,7 +178,8 @@ def group_runs(g, tier):
     raise ToolError('unknown group ' + g)
 
 
-LTS_INSTANCES = {'small': ('MC_Tree_small', 'MC_Tree_small'), 'deep': ('MC_Tree_deep', 'MC_Tree_deep')}
+LTS_INSTANCES = {'small': ('MC_Tree_small', 'MC_Tree_small'), 'deep': ('MC_Tree_deep', 'MC_Tree_deep'),
+                 'chain': ('MC_Tree_chain', 'MC_Tree_chain'), 'wide': ('MC_Tree_wide', 'MC_Tree_wide')}
 
 
 def run_group(g, tier, seed, use_cache=True):
